@@ -196,6 +196,11 @@ def run(check, prog):
     interface_level(check, prog)
     detector_constructors(check, prog)
     geometry_helpers(check, prog)
+    # the weights above are those of *one* evaluation: they hold for every member
+    # of a superposition and for every later call only if the hand-off leaves the
+    # detector's coordinates unscaled (rule shared with C07)
+    from . import c07
+    c07.coordinates(check, prog)
 
 
 def detector_constructors(check, prog):
